@@ -49,6 +49,20 @@ Definition dclass_eqb (a b : dclass) : bool :=
   | _, _ => false
   end.
 
+(* ---- repair switches: one per finding whose upstream fix is a few lines.
+   `pinned` (all off) is the code as pinned; a switch on selects the behaviour of
+   the proposed patch notes/patches/F11x.diff.  The harness sends the switches
+   with every program (ParamProg.run_sexp). ---- *)
+Record fixes := FX {
+  fx_b : bool;   (* Scalar / circuit.Box subs + lambdify keep is_mixed *)
+  fx_c : bool;   (* ClassicalGate.subs keeps _dagger *)
+  fx_d : bool;   (* Tensor.subs leaves entries without .subs alone *)
+  fx_h : bool;   (* ClassicalGate.subs / lambdify return self when data is None *)
+  fx_i : bool;   (* Sum.free_symbols is the union over the terms *)
+  fx_j : bool }. (* Sum.lambdify maps over the terms *)
+Definition pinned : fixes := FX false false false false false false.
+Definition repaired : fixes := FX true true true true true true.
+
 (* box.data *)
 Inductive pdata := DNone | DScalar (e : pexpr) | DList (es : list pexpr).
 
@@ -95,41 +109,46 @@ Definition guard (vars : list var) (b : pbox) : bool :=
 
 (* type(self)(self.name, self.dom, self.cod, _dagger=self._dagger, data=...) :
    circuit.Box.__init__ is not given is_mixed, whose default is True *)
-Definition rebuild_gen (cls : dclass) (b : pbox) (d : pdata) : pbox :=
+Definition rebuild_gen (fx : fixes) (cls : dclass) (b : pbox) (d : pdata) : pbox :=
   PB KGen (pname b) (pdom b) (pcod b) (pdag b)
-     (match cls with CCircuit => true | _ => pmixed b end) d.
+     (if fx_b fx then pmixed b else match cls with CCircuit => true | _ => pmixed b end) d.
 
 (* Parametrized: type(self)(data).  Rotations are pure and never dagger;
    Scalar(data) has is_mixed=False, MixedScalar(data) has is_mixed=True *)
-Definition rebuild_param (b : pbox) (d : pdata) : pbox :=
+Definition rebuild_param (fx : fixes) (b : pbox) (d : pdata) : pbox :=
   PB (pk b) (pname b) (pdom b) (pcod b) false
-     (match pk b with KMixedScalar => true | _ => false end) d.
+     (match pk b with
+      | KMixedScalar => true
+      | KQScalar => fx_b fx && pmixed b   (* repaired: Scalar(data, name, is_mixed=self.is_mixed) *)
+      | _ => false
+      end) d.
 
 (* ClassicalGate(self.name, self.dom, self.cod, data) : _dagger is not passed *)
-Definition rebuild_classical (b : pbox) (d : pdata) : pbox :=
-  PB KClassical (pname b) (pdom b) (pcod b) false false d.
+Definition rebuild_classical (fx : fixes) (b : pbox) (d : pdata) : pbox :=
+  PB KClassical (pname b) (pdom b) (pcod b) (fx_c fx && pdag b) false d.
 
 (* type(self)(len(self.dom), len(self.cod), phase=data) ; zx.Scalar(data) *)
 Definition rebuild_spider (b : pbox) (d : pdata) : pbox :=
   PB (pk b) (pname b) (pdom b) (pcod b) false false d.
 
 (* box.subs( *args ) *)
-Definition box_subs (cls : dclass) (f : sform) (b : pbox) : xres pbox :=
+Definition box_subs (fx : fixes) (cls : dclass) (f : sform) (b : pbox) : xres pbox :=
   let d' := data_map (expr_subs (form_sigma f)) (pdat b) in
   match pk b with
-  | KGen => if guard (form_vars f) b then XOk (rebuild_gen cls b d') else XOk b
-  | KRot | KQScalar | KMixedScalar | KSqrt => XOk (rebuild_param b d')
+  | KGen => if guard (form_vars f) b then XOk (rebuild_gen fx cls b d') else XOk b
+  | KRot | KQScalar | KMixedScalar | KSqrt => XOk (rebuild_param fx b d')
   | KClassical =>
       match pdat b with
-      | DNone => XErr XAttribute        (* self.data.flatten() on None *)
-      | _ => XOk (rebuild_classical b d')
+      | DNone => if fx_h fx then XOk b     (* repaired: if self.data is None: return self *)
+                 else XErr XAttribute      (* self.data.flatten() on None *)
+      | _ => XOk (rebuild_classical fx b d')
       end
   | KSpider | KZScalar => XOk (rebuild_spider b d')
   end.
 
 (* box.lambdify( *symbols )( *values ) *)
-Definition box_lambdify (cls : dclass) (syms : list var) (vals : list pexpr) (b : pbox)
-  : xres pbox :=
+Definition box_lambdify (fx : fixes) (cls : dclass) (syms : list var) (vals : list pexpr)
+  (b : pbox) : xres pbox :=
   let s := combine syms vals in
   let arity_ok := (length syms =? length vals)%nat in
   match pk b with
@@ -141,16 +160,17 @@ Definition box_lambdify (cls : dclass) (syms : list var) (vals : list pexpr) (b 
                  (* a list is printed without binding its other symbols *)
                  if existsb (fun e => existsb (fun y => negb (zmem y syms)) (expr_vars e)) es
                  then XErr XName
-                 else XOk (rebuild_gen cls b (DList (map (expr_lambdify s) es)))
-             | d => XOk (rebuild_gen cls b (data_map (expr_lambdify s) d))
+                 else XOk (rebuild_gen fx cls b (DList (map (expr_lambdify s) es)))
+             | d => XOk (rebuild_gen fx cls b (data_map (expr_lambdify s) d))
              end
       else XOk b
   | KRot | KQScalar | KMixedScalar | KSqrt =>
       if negb arity_ok then XErr XType
-      else XOk (rebuild_param b (data_map (expr_lambdify s) (pdat b)))
+      else XOk (rebuild_param fx b (data_map (expr_lambdify s) (pdat b)))
   | KClassical =>
       match pdat b with
-      | DNone => XErr XAttribute   (* sympy: None has no attribute replace *)
+      | DNone => if fx_h fx then XOk b   (* repaired: lambda *xs: self *)
+                 else XErr XAttribute    (* sympy: None has no attribute replace *)
       | _ => XErr XType            (* sympy cannot lambdify the numpy object array *)
       end
   | KSpider | KZScalar =>
@@ -195,13 +215,13 @@ Definition dmap (step : pbox -> xres pbox) (d : pdiagram) : xres pdiagram :=
   dox t <- scan (ddom d) bs (doffs d);
   XOk (PD (ddom d) t bs (doffs d)).
 
-Definition dsubs (cls : dclass) (f : sform) (d : pdiagram) : xres pdiagram :=
-  dmap (box_subs cls f) d.
+Definition dsubs (fx : fixes) (cls : dclass) (f : sform) (d : pdiagram) : xres pdiagram :=
+  dmap (box_subs fx cls f) d.
 
 (* monoidal.Diagram.lambdify( *symbols )( *values ) *)
-Definition dlambdify (cls : dclass) (syms : list var) (vals : list pexpr) (d : pdiagram)
-  : xres pdiagram :=
-  dmap (box_lambdify cls syms vals) d.
+Definition dlambdify (fx : fixes) (cls : dclass) (syms : list var) (vals : list pexpr)
+  (d : pdiagram) : xres pdiagram :=
+  dmap (box_lambdify fx cls syms vals) d.
 
 (* cat.Arrow.free_symbols *)
 Definition dfree (d : pdiagram) : list var := zset_of (flat_map box_fs (dboxes d)).
@@ -213,18 +233,28 @@ Definition sum_ok (s : psum) : bool :=
   forallb (fun t => ty_eqb (ddom t) (sdom s) && ty_eqb (dcod t) (scod s)) (sterms s).
 
 (* cat.Sum.subs *)
-Definition sum_subs (cls : dclass) (f : sform) (s : psum) : xres psum :=
-  dox ts <- xmapM (dsubs cls f) (sterms s);
+Definition sum_subs (fx : fixes) (cls : dclass) (f : sform) (s : psum) : xres psum :=
+  dox ts <- xmapM (dsubs fx cls f) (sterms s);
   let r := PS (sdom s) (scod s) ts in
   if sum_ok r then XOk r else XErr XAxiom.
 
-(* a Sum is a Box with data None: its free symbols are {} whatever its terms (F11i) *)
-Definition sum_free (s : psum) : list var := [].
-(* what one would expect *)
+(* what one would expect, and what the repaired Sum.free_symbols returns *)
 Definition sum_free_expected (s : psum) : list var := zset_of (flat_map dfree (sterms s)).
-(* Sum.lambdify is cat.Box.lambdify: no symbol is free, so it returns self (F11j) *)
-Definition sum_lambdify (cls : dclass) (syms : list var) (vals : list pexpr) (s : psum)
-  : xres psum := XOk s.
+(* pinned: a Sum is a Box with data None: its free symbols are {} whatever its terms (F11i) *)
+Definition sum_free (fx : fixes) (s : psum) : list var :=
+  if fx_i fx then sum_free_expected s else [].
+(* pinned: Sum.lambdify is cat.Box.lambdify: no symbol is free, so it returns self (F11j);
+   repaired: the terms are lambdified in order and summed again *)
+Definition sum_lambdify (fx : fixes) (cls : dclass) (syms : list var) (vals : list pexpr)
+  (s : psum) : xres psum :=
+  if fx_j fx then
+    dox ts <- xmapM (dlambdify fx cls syms vals) (sterms s);
+    let r := PS (sdom s) (scod s) ts in
+    if sum_ok r then XOk r else XErr XAxiom
+  else if fx_i fx && existsb (fun x => zmem x (sum_free_expected s)) syms
+  then XErr XAttribute   (* only F11i repaired: the guard of the inherited cat.Box.lambdify now
+                            passes and sympy.lambdify is handed the data None of the Sum box *)
+  else XOk s.
 
 (* ---- can numpy evaluate the boxes?  Rotation.array takes numpy.sin / exp of
    the phase when the box has no free symbol; a sympy number is not accepted
@@ -243,7 +273,11 @@ Record ptensor := PT { tdom : ty; tcod : ty; tents : list pexpr }.
 (* self.map(lambda x: getattr(x, "subs", lambda y, *_: y)(args)) : an entry
    without .subs (a Python / numpy number) is replaced by the first argument,
    i.e. by the variable, or by the list of pairs, which numpy refuses (F11d) *)
-Definition tensor_subs (f : sform) (t : ptensor) : xres ptensor :=
+Definition tensor_subs_expected (f : sform) (t : ptensor) : ptensor :=
+  PT (tdom t) (tcod t) (map (expr_subs (form_sigma f)) (tents t)).
+(* repaired: the fallback is lambda *_: x, entries without .subs stay as they are *)
+Definition tensor_subs (fx : fixes) (f : sform) (t : ptensor) : xres ptensor :=
+  if fx_d fx then XOk (tensor_subs_expected f t) else
   match f with
   | SSingle x v =>
       XOk (PT (tdom t) (tcod t)
@@ -254,14 +288,24 @@ Definition tensor_subs (f : sform) (t : ptensor) : xres ptensor :=
       then XOk (PT (tdom t) (tcod t) (map (expr_subs s) (tents t)))
       else XErr XValue
   end.
-Definition tensor_subs_expected (f : sform) (t : ptensor) : ptensor :=
-  PT (tdom t) (tcod t) (map (expr_subs (form_sigma f)) (tents t)).
 
 (* sympy.lambdify on a numpy object array raises TypeError (F11g) *)
 Definition tensor_lambdify (syms : list var) (vals : list pexpr) (t : ptensor)
   : xres ptensor := XErr XType.
-(* CQMap.subs = Tensor.subs -> Tensor.map builds a Tensor with CQ types (F11e) *)
-Definition cqmap_subs (f : sform) (t : ptensor) : xres ptensor := XErr XType.
+(* CQMap.subs = Tensor.subs -> Tensor.map builds Tensor(self.dom, self.cod, entries)
+   with CQ types: numpy.array(entries) first (ValueError as in Tensor.subs when the
+   entries are inhomogeneous), then .reshape(dom @ cod or (1, )) which raises
+   TypeError unless both types are empty (F11e).  The result is a Tensor. *)
+Definition cq_nonempty (t : ptensor) : bool :=
+  negb (match tdom t, tcod t with [], [] => true | _, _ => false end).
+Definition cqmap_subs (fx : fixes) (f : sform) (t : ptensor) : xres ptensor :=
+  let all_python := forallb (fun e => negb (esym e)) (tents t) in
+  if cq_nonempty t then
+    match f with
+    | SList _ => if all_python then XErr XType else dox _ <- tensor_subs fx f t; XErr XType
+    | SSingle _ _ => dox _ <- tensor_subs fx f t; XErr XType
+    end
+  else tensor_subs fx f t.
 
 (* ---- grounding: the numbers an evaluation sees ---- *)
 Definition ground_data (rho : env) (d : pdata) : Z * list Qc :=
@@ -305,15 +349,16 @@ Definition dwf (d : pdiagram) : bool := wf d && forallb box_wf (dboxes d).
 (* ---- triggers of the flag findings ---- *)
 (* F11b: Scalar(..., is_mixed=True) rebuilt as Scalar(data); a pure generic
    circuit.Box with data rebuilt with the default is_mixed=True *)
-Definition f11b_box (cls : dclass) (vars : list var) (b : pbox) : bool :=
+Definition f11b_box (fx : fixes) (cls : dclass) (vars : list var) (b : pbox) : bool :=
+  negb (fx_b fx) &&
   match pk b with
   | KQScalar => pmixed b
   | KGen => dclass_eqb cls CCircuit && guard vars b && negb (pmixed b)
   | _ => false
   end.
 (* F11c: ClassicalGate.subs drops _dagger *)
-Definition f11c_box (b : pbox) : bool :=
-  match pk b with KClassical => pdag b | _ => false end.
+Definition f11c_box (fx : fixes) (b : pbox) : bool :=
+  negb (fx_c fx) && match pk b with KClassical => pdag b | _ => false end.
 (* F11h: ClassicalGate with data None (Bits, Digits) *)
-Definition f11h_box (b : pbox) : bool :=
-  match pk b, pdat b with KClassical, DNone => true | _, _ => false end.
+Definition f11h_box (fx : fixes) (b : pbox) : bool :=
+  negb (fx_h fx) && match pk b, pdat b with KClassical, DNone => true | _, _ => false end.
